@@ -597,6 +597,18 @@ func runC03(p *core.Prog, r *core.Report, tier string) {
 			if b := test.Block().Succs[0]; !blockReturnsSoon(b) {
 				contSucc = 0
 			}
+			// more robustly: the continuing edge is the one from which the record is reached
+			reach := func(k int) bool {
+				e := [2]*ssa.BasicBlock{test.Block(), test.Block().Succs[k]}
+				return core.PathQuery{Fn: f, StartEdge: &e, Target: func(y ssa.Instruction) bool { return y == store }}.Find() != nil
+			}
+			if r0, r1 := reach(0), reach(1); r0 != r1 {
+				if r0 {
+					contSucc = 0
+				} else {
+					contSucc = 1
+				}
+			}
 			relCont := c.RelOnEdge(contSucc)
 			if c.Y.HasFieldSuffix("latestEpochRan") {
 				relCont = core.FlipRel(relCont)
